@@ -437,5 +437,19 @@ def decide(prop, tier, seed, mod, cases, agg, crashes, timed_out, t0, findings, 
     return 0
 
 
+def guarded():
+    """A defect of the harness itself must never look like a verdict: exit 2 (inconclusive), never 1."""
+    try:
+        return main()
+    except SystemExit:
+        raise
+    except BaseException:
+        import traceback
+        traceback.print_exc()
+        prop = sys.argv[1].upper() if len(sys.argv) > 1 else '?'
+        print('INCONCLUSIVE property=%s reason=harness error in the parent process (see traceback above)' % prop)
+        return 2
+
+
 if __name__ == '__main__':
-    sys.exit(main())
+    sys.exit(guarded())
